@@ -301,40 +301,52 @@ def run(repo: Repo, rep: Report) -> None:
 
     # ------------------------------------------------- store read methods
     rep.rule("C13.f-store-reads-dont-write",
-             "the read methods of the in-memory stores (triples, __len__, contexts, triples_choices, namespaces, prefix, "
-             "namespace and their private helpers reached only from reads) contain no write to the stores' index "
-             "dictionaries: no subscript store / del / setdefault / pop / update / add / discard on a self.<index> path", floor=10)
+             "the read methods of the in-memory stores (the public read API - triples, triples_choices, __len__, contexts, namespaces, "
+             "prefix, namespace, query - and every method of the class they reach through self.<method>, whatever it is called) "
+             "contain no write to the store's state: no subscript / attribute store, del, setdefault / pop / update / add / discard ... "
+             "on a self.<...> path.  One kind of write is not state: `self.A[k] = v` where A is a table the class only does point "
+             "lookups on and k is a string built from v alone (an interning memo: key -> an object with that identity)", floor=10)
+    from vlib import h_c13 as _H
     mem = repo.mod("rdflib.plugins.stores.memory")
-    READS = ("triples", "__len__", "contexts", "namespaces", "prefix", "namespace", "query", "_Memory__contexts", "__contexts",
-             "__get_context_for_triple", "__triple_has_context", "__ctx_to_str", "__ctxs_to_ids")
+
+    def rooted_self(e):
+        while isinstance(e, (ast.Subscript, ast.Attribute, ast.Call)):
+            if isinstance(e, ast.Attribute) and isinstance(e.value, ast.Name) and e.value.id == "self":
+                return True
+            e = e.value if not isinstance(e, ast.Call) else e.func
+        return False
+
     for cls in ("Memory", "SimpleMemory"):
-        for mname, f in mem.methods(cls).items():
-            if mname not in READS:
-                continue
+        cdef = mem.cls(cls)
+        reads = _H.store_read_methods(cdef)
+        # anchors: the entry points every store must answer; a class that lost one is not the class this rule was written for
+        for must in ("triples", "__len__", "namespaces"):
+            if must not in reads:
+                raise AnalysisError("C13.f: %s defines no %s() - the read side of the store cannot be delimited" % (cls, must))
+        tables = _H.lookup_only_tables(mem, cdef)
+        for mname in sorted(reads):
+            fs = reads[mname]
             rep.analysed("rdflib/plugins/stores/memory.py:%s.%s" % (cls, mname))
             writes = []
-            for n in own_nodes(f, include_nested=True):
-                def rooted_self(e):
-                    while isinstance(e, (ast.Subscript, ast.Attribute, ast.Call)):
-                        if isinstance(e, ast.Attribute) and isinstance(e.value, ast.Name) and e.value.id == "self":
-                            return True
-                        e = e.value if not isinstance(e, ast.Call) else e.func
-                    return False
-                if isinstance(n, (ast.Assign, ast.AugAssign, ast.AnnAssign)):
-                    tg = n.targets if isinstance(n, ast.Assign) else [n.target]
-                    for t in tg:
-                        if isinstance(t, (ast.Subscript, ast.Attribute)) and rooted_self(t):
-                            writes.append(n)
-                if isinstance(n, ast.Delete) and any(rooted_self(t) for t in n.targets):
-                    writes.append(n)
-                if isinstance(n, ast.Call) and isinstance(n.func, ast.Attribute) and n.func.attr in (
-                        "setdefault", "pop", "popitem", "update", "add", "discard", "remove", "clear", "append", "extend", "insert") and rooted_self(n.func.value):
-                    writes.append(n)
-            # interning memo: context key -> a Graph view carrying that very identifier (the key is built from
-            # the identifier's class and value, so any object stored under it is identifier-equal); not triple state
-            writes = [w for w in writes if "__context_obj_map" not in norm(w)]
+            for f in fs:
+                for n in own_nodes(f, include_nested=True):
+                    w = False
+                    if isinstance(n, (ast.Assign, ast.AugAssign, ast.AnnAssign)):
+                        tg = n.targets if isinstance(n, ast.Assign) else [n.target]
+                        w = any(isinstance(t, (ast.Subscript, ast.Attribute)) and rooted_self(t) for t in tg)
+                    if isinstance(n, ast.Delete) and any(rooted_self(t) for t in n.targets):
+                        w = True
+                    if isinstance(n, ast.Call) and isinstance(n.func, ast.Attribute) and n.func.attr in (
+                            "setdefault", "pop", "popitem", "update", "add", "discard", "remove", "clear", "append", "extend", "insert") and rooted_self(n.func.value):
+                        w = True
+                    # interning memo: key -> an object from which that very key is computed (for Memory: context key ->
+                    # a Graph view carrying that identifier); any object stored under it is identifier-equal; not triple state
+                    if w and not _H.interning_store(mem, f, n, tables):
+                        writes.append(n)
+            writes.sort(key=lambda n: (n.lineno, n.col_offset))
             rep.ob("C13.f-store-reads-dont-write", mem, "%s.%s" % (cls, mname), "no index write in %s.%s" % (cls, mname), not writes,
-                   "read-only" if not writes else "store read method writes store state: %s" % norm(writes[0])[:80], node=writes[0] if writes else f)
+                   "read-only" if not writes else "store read method writes store state: %s" % norm(writes[0])[:80], node=writes[0] if writes else fs[-1])
+    rep.info["store_read_side"] = {c: sorted(_H.store_read_methods(mem.cls(c))) for c in ("Memory", "SimpleMemory")}
 
 
 def _stated_first(mod, call: ast.Call, w) -> bool:
